@@ -856,6 +856,7 @@ type cc08State struct {
 	writes  []map[string]string
 	acked   []bool
 	snapAck [][]bool
+	txns    []*Txn
 }
 
 func init() {
@@ -986,6 +987,204 @@ func init() {
 				x.s.Log("img")
 			}
 			return fmt.Sprint(order), "", ""
+		},
+	})
+}
+
+// crash10c: concurrent committers under SyncWrites with every persistence step as a schedule
+// point; after the run, the power-loss image of every step (contents as of the last completed
+// msync/fsync, names as of the last directory fsync) is recovered and must contain every commit
+// that had been acknowledged at that step, as a commit-order prefix.  The memtable is nearly full
+// and the writer goroutine is kept busy by the first commit, so the next two requests are written
+// as ONE batch with a memtable (and WAL) rotation between them.
+func init() {
+	registerSched(&schedScenario{
+		name:   "crash10c",
+		points: []string{"op", "io"},
+		setup: func(x *schedExec) {
+			if x.j.Params == nil {
+				x.j.Params = map[string]any{}
+			}
+			x.j.Params["sync_writes"] = true
+			o := crashOpts(x.dir, x.j)
+			o.NumMemtables = 5
+			x.db = mustOpen(o)
+			st := &cc08State{cr: &crashRun{dir: x.dir, blobs: map[string][]byte{}, opts: o}}
+			st.names = []string{"T1", "T2", "T3"}
+			st.writes = []map[string]string{{"c": "T1"}, {"a": string(val("T2-", 1200)), "b": "T2"}, {"b": "T3", "d": "T3"}}
+			st.acked = make([]bool, len(st.names))
+			x.state = st
+			// fill the memtable up to ~1 KiB below its limit
+			for i := 0; x.db.mt.sl.MemSize() < o.MemTableSize-2200; i++ {
+				if err := x.db.Update(func(txn *Txn) error { return txn.Set([]byte(fmt.Sprintf("fill%03d", i)), val("f", 900)) }); err != nil {
+					panic(err)
+				}
+			}
+			// transactions are created up front so that the requests can share a batch (see c06dyn)
+			for range st.names {
+				st.txns = append(st.txns, x.db.NewTransaction(true))
+			}
+			var evmu gosync.Mutex
+			y.VerifIOFn = func(op, path string) {
+				if x.s == nil || !x.s.Active() {
+					return
+				}
+				ev := &ioEvent{Op: op}
+				if op == "rename" {
+					ps := strings.SplitN(path, "\x00", 2)
+					ev.Path, ev.Path2 = filepath.Base(ps[0]), filepath.Base(ps[1])
+				} else if op == "dirsync" {
+					ev.Path = "."
+				} else {
+					ev.Path = filepath.Base(path)
+					_, err := os.Stat(path)
+					ev.Existed = err == nil
+				}
+				evmu.Lock()
+				st.cr.events = append(st.cr.events, ev)
+				evmu.Unlock()
+				x.s.Point("io")
+				ev.Started = true
+			}
+		},
+		teardown: func(x *schedExec) {
+			y.VerifIOFn = nil
+			if x.db != nil {
+				_ = x.db.Close()
+			}
+		},
+		threads: func(x *schedExec) []sched.Thread {
+			st := x.state.(*cc08State)
+			var ths []sched.Thread
+			for i, n := range st.names {
+				i := i
+				txn := st.txns[i]
+				ths = append(ths, sched.Thread{Name: n, Body: func() {
+					x.s.Point("op")
+					ks := make([]string, 0, 2)
+					for k := range st.writes[i] {
+						ks = append(ks, k)
+					}
+					sort.Strings(ks)
+					for _, k := range ks {
+						if err := txn.Set([]byte(k), []byte(st.writes[i][k])); err != nil {
+							panic(err)
+						}
+					}
+					if err := txn.Commit(); err != nil {
+						panic(err)
+					}
+					st.acked[i] = true
+				}})
+			}
+			return ths
+		},
+		afterStep: func(x *schedExec) string {
+			st := x.state.(*cc08State)
+			if len(st.cr.snaps) == 0 {
+				// c10Images treats everything present at snapshot 0 as durable: it must be the state
+				// right after the (synced) prefix, which it is: nothing has been released yet
+			}
+			st.cr.snapshot()
+			st.snapAck = append(st.snapAck, append([]bool{}, st.acked...))
+			return ""
+		},
+		check: func(x *schedExec) (string, string, string) {
+			y.VerifIOFn = nil
+			st := x.state.(*cc08State)
+			d := dumpAll(x.db)
+			ts := make([]uint64, len(st.names))
+			for i := range st.names {
+				for k, v := range st.writes[i] {
+					for _, e := range d[k] {
+						if e.Val == v {
+							ts[i] = e.Ver
+						}
+					}
+				}
+				if ts[i] == 0 {
+					return "", fmt.Sprintf("%s acknowledged but not stored", st.names[i]), "lost-commit"
+				}
+			}
+			order := []int{0, 1, 2}
+			sort.Slice(order, func(a, b int) bool { return ts[order[a]] < ts[order[b]] })
+			var prefixes []map[string]string
+			cur := map[string]string{}
+			prefixes = append(prefixes, map[string]string{})
+			for _, i := range order {
+				for k, v := range st.writes[i] {
+					cur[k] = v
+				}
+				cp := map[string]string{}
+				for k, v := range cur {
+					cp[k] = v
+				}
+				prefixes = append(prefixes, cp)
+			}
+			seen := map[string]bool{}
+			rotated := false
+			for _, img := range st.cr.c10Images() {
+				k := img.Snap
+				sig := imgSig(img, st.cr.snaps[k]) + fmt.Sprint(st.snapAck[k])
+				if seen[sig] {
+					continue
+				}
+				seen[sig] = true
+				mems := 0
+				for n := range img.Files {
+					if strings.HasSuffix(n, ".mem") {
+						mems++
+					}
+				}
+				if mems > 1 {
+					rotated = true
+				}
+				dir := st.cr.materialize(x.j, img.Files)
+				o := st.cr.opts
+				o.Dir, o.ValueDir = dir, dir
+				db, err := Open(o)
+				if err != nil {
+					_ = os.RemoveAll(dir)
+					return "", fmt.Sprintf("power-loss image %s: Open: %v\n  files: %s", img.Name, err, imgString(img.Files)), "open-failed/powerloss/concurrent"
+				}
+				all, _, err := visibleState(db)
+				_ = db.Close()
+				_ = os.RemoveAll(dir)
+				if err != nil {
+					return "", fmt.Sprintf("power-loss image %s: %v", img.Name, err), "read-failed"
+				}
+				got := map[string]string{}
+				for k, v := range all {
+					if !strings.HasPrefix(k, "fill") {
+						got[k] = v
+					}
+				}
+				match := -1
+				for n, p := range prefixes {
+					if mapString(p) == mapString(got) {
+						match = n
+					}
+				}
+				if match < 0 {
+					return "", fmt.Sprintf("power-loss image %s: recovered {%s} is not a prefix of the commit order %v", img.Name, mapString(got), order), "not-a-commit-prefix/powerloss-concurrent"
+				}
+				for i, a := range st.snapAck[k] {
+					if !a {
+						continue
+					}
+					pos := 0
+					for p, oi := range order {
+						if oi == i {
+							pos = p + 1
+						}
+					}
+					if match < pos {
+						return "", fmt.Sprintf("power-loss image %s: %s was acknowledged (SyncWrites) but the recovered state {%s} does not contain it\n  files: %s", img.Name, st.names[i], mapString(got), imgString(img.Files)), "acked-lost/powerloss-concurrent"
+					}
+				}
+				x.s.Log("img")
+			}
+			return fmt.Sprintf("%v rotated=%v", order, rotated), "", ""
 		},
 	})
 }
